@@ -383,7 +383,7 @@ func TestC04(t *testing.T) {
 		rec.Extra("alphabet_size", len(alphabet))
 		rec.Extra("second_alphabet_size", len(alphabet2))
 	}
-	ev.Rapid(t, rec, "random", rec.Scale(4000, 400000), genCase, func(c Case) *ev.Failure { return runRecorded("random", c) })
+	ev.Rapid(t, rec, "random", rec.Scale(4000, 2000000), genCase, func(c Case) *ev.Failure { return runRecorded("random", c) })
 }
 
 func genCase(t *rapid.T) Case {
